@@ -41,7 +41,7 @@ ASSUMPTIONS = [
     "cores not requested may only change from wait to run, through the "
     "start signal addressed to their application id",
 ]
-FLOORS = {"load_checked": 300, "fill_wellformed": 500, "retry_narrowed": 100,
+FLOORS = {"default_left_out": 400, "filename_and_targets_form": 100, "load_checked": 300, "fill_wellformed": 500, "retry_narrowed": 100,
           "loading_error_exact": 40, "returned_all_loaded": 150,
           "count_mode": 80, "percore_mode": 80}
 ANCHORS = [("rig.machine_control.machine_controller",
